@@ -31,8 +31,8 @@ def gen_seq(rng, sid, focus='c01', nops=None, conf=None):
     ops = []
     up = True
     pending_rot = []  # chunks whose rot-flush we may release manually (approximate; harmless if wrong)
-    restarts = focus in ('c02', 'c13', 'c03', 'c18') or rng.random() < 0.3
-    gcs = focus in ('c03', 'c18') or (focus == 'c13' and rng.random() < 0.5)
+    restarts = focus in ('c02', 'c13', 'c03', 'c18', 'c17') or rng.random() < 0.3
+    gcs = focus in ('c03', 'c18', 'c17') or (focus == 'c13' and rng.random() < 0.5)
     for i in range(n):
         x = rng.random()
         k = rng.choice(keys)
@@ -81,7 +81,7 @@ def gen_seq(rng, sid, focus='c01', nops=None, conf=None):
         elif gcs:
             ops.append({'op': 'flush'})
             ops.append({'op': 'gc', 'begin': rng.choice([0, 0, 1, 2, -1]), 'end': rng.choice([-1, -1, 0, 1, 2, 3]),
-                        'merge': False})
+                        'merge': False, 'twice': rng.random() < 0.3})
         else:
             ops.append({'op': 'get', 'k': k})
     if not up:
